@@ -1405,6 +1405,10 @@ class ComputeGraph(MultiDiGraph):
         # extract common shape
         if lhs.shape == rhs.shape:
             return lhs, rhs
+        # a scalar right-hand side (e.g. an unconnected input that drives every unit of a population) is broadcast over
+        # the state variable by the generated assignment
+        if not rhs.shape or sum(rhs.shape) == 1:
+            return lhs, rhs
         try:
             rhs = rhs.reshape(lhs.shape)
             return lhs, rhs
